@@ -25,6 +25,12 @@ def main():
     if ns.replay:
         with open(ns.replay) as f:
             rep = json.load(f)
+        if not hasattr(mod, "run_case"):
+            # subprocess-level checks (C06, C16, C17, C19): the case list is a pure function of (tier, seed); replay = re-run with them
+            os.environ["VERIF_SEED"] = str(rep.get("seed", 0))
+            os.environ["VERIF_TIER"] = rep.get("tier", "quick")
+            print(f"replaying {ns.prop} with VERIF_SEED={rep.get('seed')} VERIF_TIER={rep.get('tier')}; recorded witness: {rep['witness'].get('msg', '')[:300]}")
+            sys.exit(mod.main())
         if hasattr(mod, "setup_worker"):
             mod.setup_worker()
         r = mod.run_case(rep["case"])
